@@ -247,22 +247,27 @@ def gen_dataset(rng, nmax=150, nfeat=None):
     feats = {}
     for nm in names:
         style = rng.choice(["spread", "spread", "cluster", "ties", "wide",
-                            "const", "nonpos"] if rng.random() < .6 else
+                            "const", "nonpos"] if rng.random() < .45 else
                            ["spread", "cluster"])
         positive = rng.random() < .75
         vals = gen_values(rng, n, style, positive)
         if rng.random() < .4:
-            vals = inject(rng, vals, rng.choice([.05, .15, .5]))
+            vals = inject(rng, vals, rng.choice([.05, .1, .1, .3]))
         feats[nm] = vals
     return n, feats
 
 
-def gen_filter(rng, n, feats):
+# every kind appears in a fixed rotation, so that also a quick run has at
+# least four cases of each (64 cases / 16)
+FILTER_KINDS = ["manual", "box", "polygon", "disabled", "invalid", "mixed",
+                "limit", "single", "manual", "none", "posbox", "disabled",
+                "box", "mixed", "empty", "manual"]
+
+
+def gen_filter(rng, n, feats, kind=None):
     """filter description; the mask is whatever dclab computes from it"""
     names = sorted(feats)
-    kind = rng.choice(["manual", "manual", "manual", "box", "box", "polygon",
-                       "invalid", "limit", "none", "disabled", "empty",
-                       "single", "mixed", "posbox", "posbox"])
+    kind = kind or rng.choice(FILTER_KINDS)
     f = dict(kind=kind)
     if kind == "posbox" and n:
         # non-positive values (log -> nan / -inf) on events that a box filter
@@ -276,7 +281,7 @@ def gen_filter(rng, n, feats):
         top = max([k for t, k in feats[nm]] + [8])
         f["box"] = [nm, 1, max(top, 2)]
     if kind in ("manual", "mixed", "disabled"):
-        p = rng.choice([.1, .5, .5, .9])
+        p = rng.choice([.15, .5, .7, .9])
         f["manual"] = [1 if rng.random() < p else 0 for _ in range(n)]
     if kind == "empty":
         f["manual"] = [0] * n
@@ -385,10 +390,19 @@ def derived_kwargs(par, xsel, ysel, xs, ys, kt):
     return ckw, kkw
 
 
-def gen_meta_case(rng, nmax=150):
-    n, feats = gen_dataset(rng, nmax)
-    return dict(kind="meta", n=n, feats=feats, filt=gen_filter(rng, n, feats),
-                par=gen_params(rng, n, feats))
+def gen_meta_case(rng, nmax=150, kind=None):
+    """most cases keep >= 3 jointly finite events on the two axes (judged on
+    the data before filtering; the degenerate rest stays as boundary cases)"""
+    for attempt in range(4):
+        n, feats = gen_dataset(rng, nmax)
+        filt = gen_filter(rng, n, feats, kind)
+        par = gen_params(rng, n, feats)
+        both = sum(1 for (t1, _), (t2, _) in zip(feats[par["xax"]],
+                                                 feats[par["yax"]])
+                   if t1 == 0 and t2 == 0)
+        if both >= 6 or rng.random() < .15:
+            break
+    return dict(kind="meta", n=n, feats=feats, filt=filt, par=par)
 
 
 # --------------------------------------------------------------------------
@@ -631,7 +645,7 @@ def compare_obs(oa, ob, la, lb, skip=()):
         elif k in ("logwarn",) or (k == "tsv_all" and lb == "restricted") \
                 or (k == "tsv_all" and lb == "adversarial"):
             continue      # all events: differs by construction
-        elif k in ("stats", "stats_all", "stats_methods"):
+        elif k in ("stats", "stats_all", "stats_methods", "stats_lacking"):
             ha, va = a[1]
             hb, vb = b[1]
             if ha != hb:
@@ -640,7 +654,7 @@ def compare_obs(oa, ob, la, lb, skip=()):
             for h, x, y in zip(ha, va, vb):
                 if h == "%-gated":
                     continue
-                if lb == "restricted" and "Index" in h:
+                if lb.startswith("restricted") and "Index" in h:
                     continue       # event numbers are renumbered there
                 # same selected values -> same statistic; one part in 1e12
                 # is left to the summation order
@@ -1291,11 +1305,21 @@ def check_tsv_down(case, obs, mask):
     for k, r in obs.items():
         if not k.startswith("down/") or k.endswith("/maskok"):
             continue
+        parts = k.split("/")
         if r[0] != "ok":
-            # a non-negative request on any selection must be answered
+            # a non-negative request on any selection must be answered; the
+            # only listed exception is C16's finding C16-grid-constant-axis
+            # (downsample_grid, Cython: IndexError when all valid values of
+            # one axis are equal and the grid step runs)
+            with np.errstate(all="ignore"):
+                sx_, sy_ = sc(xs, parts[2]), sc(ys, parts[3])
+            fin = np.isfinite(sx_) & np.isfinite(sy_)
+            if r[1] == "IndexError" and fin.any() and 0 < min(
+                    int(parts[1]), m) < fin.sum() and (
+                        np.ptp(sx_[fin]) == 0 or np.ptp(sy_[fin]) == 0):
+                continue
             fails.append("%s raises %s (%d selected events)" % (k, r[1], m))
             continue
-        parts = k.split("/")
         # definition: downsample_grid on the scaled selected events, capped
         # at the number of selected events
         with np.errstate(all="ignore"):
@@ -1629,7 +1653,37 @@ def warm_analyses(ds, case):
     out["down"] = guarded(lambda: ds.get_downsampled_scatter(
         xax="area_um", yax="deform", downsample=case["down"], xscale=xs,
         yscale=ys))
+    # statistics, tsv and a quantile level of the large, non-dyadic sample
+    from dclab import statistics, kde_contours
+    out["stats_all"] = guarded(lambda: statistics.get_statistics(ds))
+    out["tsv"] = guarded(lambda: tsv_rows(ds, ["area_um", "deform"],
+                                          WARM_SCRATCH[0], "W"))
+    c = out["contour/histogram"]
+    if c[0] == "ok":
+        out["quantile"] = guarded(lambda: kde_contours.get_quantile_levels(
+            c[1][2], c[1][0], c[1][1], ds["area_um"][ds.filter.all],
+            ds["deform"][ds.filter.all], q=[.1, .5, .95], normalize=False))
     return out, (px, py)
+
+
+WARM_SCRATCH = ["/var/tmp"]
+
+
+class ds_view:
+    """the minimum check_statistics_all needs: scalar features by name"""
+
+    def __init__(self, x, y, mask):
+        import numpy as np
+        self._d = {"area_um": x, "deform": y,
+                   "index": np.arange(1, len(x) + 1)}
+        self.features_scalar = ["area_um", "deform", "index"]
+        self.config = {}
+
+    def __getitem__(self, k):
+        return self._d[k]
+
+    def __contains__(self, k):
+        return k in self._d
 
 
 def warm_worker(args):
@@ -1641,6 +1695,7 @@ def warm_worker(args):
     from dclab.cached import Cache
     x, y = warm_data(case)
     n = case["n"]
+    WARM_SCRATCH[0] = scratch
     ds = dclab.new_dataset({"area_um": x, "deform": y})
     Cache.clear_cache()
     warm = []
@@ -1665,6 +1720,34 @@ def warm_worker(args):
                              "cache not cleared)" % k,
                              "restricted (fresh cache)"):
             fails.append(f)
+        # valid data: nothing may raise
+        for kk, r in sorted(ow.items()):
+            if r[0] != "ok":
+                fails.append("state %d: %s raises %s on %d valid events" % (
+                    k, kk, r[1], int(mask.sum())))
+        # definitions on the large non-dyadic sample: statistics (exact
+        # fractions), tsv rows, quantile levels
+        sa = check_statistics_all(ds_view(x, y, mask), ow, mask, True)
+        for f in (sa[0] if isinstance(sa, tuple) else sa):
+            if "Index" not in f:
+                fails.append("state %d: %s" % (k, f))
+        if ow["tsv"][0] == "ok":
+            want = ["%.10e\t%.10e" % (u, v) for u, v in zip(x[mask], y[mask])]
+            if list(ow["tsv"][1]) != want:
+                fails.append("state %d: tsv rows are not the selected events"
+                             % k)
+        cq, lq = ow.get("contour/histogram"), ow.get("quantile")
+        if cq and lq and cq[0] == "ok" and lq[0] == "ok" and xs == "linear" \
+                and ys == "linear":
+            X, Y, Z = cq[1]
+            dp = bilinear(X[:, 0], Y[0, :], Z, x[mask], y[mask])
+            fr = sorted(fractions.Fraction(float(v)) for v in dp)
+            for (a, b), lev in zip([(1, 10), (1, 2), (19, 20)], lq[1]):
+                want = float(frac_percentile(fr, a, b))
+                if not close(float(lev), want, 1e-9, 1e-9 * float(Z.max())):
+                    fails.append("state %d: quantile level %r for q=%d/%d, "
+                                 "percentile of the interpolated densities "
+                                 "%r" % (k, float(lev), a, b, want))
         # reference estimator at the explicit positions
         ex, ey = sc(x[mask], xs), sc(y[mask], ys)
         ox, oy = sc(px, xs), sc(py, ys)
@@ -1777,19 +1860,22 @@ def history_worker(args):
 # --------------------------------------------------------------------------
 def gen_backend_case(rng):
     n = rng.choice([12, 25, 50])
-    feats = {"area_um": [[0, rng.randint(80, 2000)] for _ in range(n)],
-             "deform": [[0, rng.randint(1, 400)] for _ in range(n)]}
+    # k/7: neither dyadic nor exactly representable in float32
+    feats = {"area_um": [rng.randint(80, 2000) / 7 for _ in range(n)],
+             "deform": [rng.randint(1, 400) / 7000 for _ in range(n)]}
     for k in feats:
         for i in range(n):
             if rng.random() < .08:
-                feats[k][i] = [1, 0]
-    return dict(kind="backend", n=n, feats=feats,
-                mask=[1 if rng.random() < .7 else 0 for _ in range(n)],
-                down=rng.choice([0, 3, 7]))
+                feats[k][i] = None            # NaN
+    mask = [1 if rng.random() < .7 else 0 for _ in range(n)]
+    m = sum(mask)
+    return dict(kind="backend", n=n, feats=feats, mask=mask,
+                mask2=[1 if rng.random() < .8 else 0 for _ in range(m)],
+                adv_seed=rng.randrange(1 << 30), down=rng.choice([0, 3, 7]))
 
 
-def backend_observe(ds, case):
-    from dclab import statistics
+def backend_observe(ds, case, scratch, tag):
+    from dclab import statistics, kde_contours
     from dclab.cached import Cache
     Cache.clear_cache()
     obs = {}
@@ -1801,8 +1887,15 @@ def backend_observe(ds, case):
                 lambda: ds.get_kde_scatter(kde_type=kt, xscale=xs))
         obs["contour/%s" % kt] = guarded(
             lambda: ds.get_kde_contour(kde_type=kt))
+    c = obs["contour/histogram"]
+    if c[0] == "ok":
+        obs["quantile"] = guarded(lambda: kde_contours.get_quantile_levels(
+            c[1][2], c[1][0], c[1][1], ds["area_um"][ds.filter.all],
+            ds["deform"][ds.filter.all], q=[.25, .5, .9]))
     obs["down"] = guarded(lambda: ds.get_downsampled_scatter(
         downsample=case["down"]))
+    obs["tsv"] = guarded(lambda: tsv_rows(ds, ["area_um", "deform"], scratch,
+                                          tag))
     return obs
 
 
@@ -1810,36 +1903,65 @@ def backend_worker(args):
     import warnings
     warnings.simplefilter("ignore")
     case, scratch = args
+    import random
     import numpy as np
     import dclab
     from . import gen
-    data = {k: dec(v) for k, v in case["feats"].items()}
+    data = {k: np.array([np.nan if v is None else v for v in vals],
+                        dtype=np.float64)
+            for k, vals in case["feats"].items()}
     mask = np.array(case["mask"], dtype=bool)
     fails = []
     counts = {}
     if not mask.any():
         return dict(fails=[], counts={}, nontrivial=False, m=0)
-    ref = dclab.new_dataset({k: v[mask] for k, v in data.items()})
-    ref.apply_filter()
-    oref = backend_observe(ref, case)
+    # what an HDF5 file stores: float32
+    data32 = {k: v.astype(np.float32).astype(np.float64)
+              for k, v in data.items()}
+
+    def plain(d, sel):
+        ds = dclab.new_dataset({k: v[sel] for k, v in d.items()})
+        ds.apply_filter()
+        return ds
+    # adversarial values on the excluded events of the file
+    adv = {k: v.astype(np.float32) for k, v in data.items()}
+    arng = random.Random(case["adv_seed"])
+    for k in adv:
+        for i in np.where(~mask)[0]:
+            adv[k][i] = arng.choice([np.nan, np.inf, -np.inf, 1e30, -1e30,
+                                     0.0])
     path = os.path.join(scratch, "c12_backend_%d.rtdc" % os.getpid())
-    gen.write_spec(path, dict(n=case["n"], features={
-        k: v.astype(np.float32) for k, v in data.items()},
-        meta=gen.base_meta()))
+    gen.write_spec(path, dict(n=case["n"], features=adv,
+                              meta=gen.base_meta()))
     variants = []
     h5 = dclab.new_dataset(path)
     h5.filter.manual[:] = mask
     h5.apply_filter()
     counts["backend:hdf5 dtype " + str(h5["area_um"][:].dtype)] = 1
-    variants.append(("HDF5-backed", h5))
+    variants.append(("HDF5-backed (float32, adversarial excluded values)",
+                     h5, plain(data32, mask)))
     par = dclab.new_dataset(data)
     par.filter.manual[:] = mask
     par.apply_filter()
-    variants.append(("hierarchy child", dclab.new_dataset(par)))
-    for label, ds in variants:
-        ob = backend_observe(ds, case)
+    variants.append(("hierarchy child", dclab.new_dataset(par),
+                     plain(data, mask)))
+    # a child with a manual filter of its own
+    mask2 = np.array(case.get("mask2", [1] * int(mask.sum())), dtype=bool)
+    if mask2.any():
+        child = dclab.new_dataset(par)
+        child.filter.manual[:] = mask2
+        child.apply_filter()
+        sel2 = np.where(mask)[0][mask2]
+        variants.append(("filtered hierarchy child", child,
+                         plain(data, sel2)))
+    for vi, (label, ds, ref) in enumerate(variants):
+        oref = backend_observe(ref, case, scratch, "BR%d" % vi)
+        ob = backend_observe(ds, case, scratch, "B%d" % vi)
         for k in sorted(oref):
-            a, b = ob[k], oref[k]
+            a, b = ob.get(k), oref[k]
+            if a is None:
+                fails.append("%s: missing for the %s dataset" % (k, label))
+                continue
             if a[0] != b[0] or (a[0] == "exc" and a[1] != b[1]):
                 fails.append("%s: %s dataset gives %s, plain dataset of the "
                              "selected events gives %s" % (k, label, short(a),
@@ -1851,9 +1973,15 @@ def backend_worker(args):
                 for h, u, v in zip(a[1][0], a[1][1], b[1][1]):
                     if h == "%-gated" or "Flow" in h:
                         continue
-                    if not close(float(u), float(v), 1e-6, 0):
+                    # float32 accumulation inside numpy: 1e-5
+                    if not close(float(u), float(v), 1e-5, 0):
                         fails.append("%s dataset: %s = %r, plain dataset %r"
                                      % (label, h, float(u), float(v)))
+                continue
+            if k == "tsv":
+                if list(a[1]) != list(b[1]):
+                    fails.append("tsv: rows of the %s dataset differ from "
+                                 "the rows of the plain dataset" % label)
                 continue
             ra = a[1] if isinstance(a[1], (tuple, list)) else [a[1]]
             rb = b[1] if isinstance(b[1], (tuple, list)) else [b[1]]
@@ -1979,6 +2107,15 @@ def dtype_worker(args):
                          "as float64 give %s" % (tag, k, short(a), short(b)))
             continue
         if a[0] == "exc":
+            # valid data: statistics and downsampling must answer (listed
+            # exception: C16-grid-constant-axis, IndexError)
+            sel = xi[mask].astype(np.float64), yi[mask].astype(np.float64)
+            const = sel[0].size and (np.ptp(sel[0]) == 0
+                                     or np.ptp(sel[1]) == 0)
+            if k == "stats" or (k.startswith("down") and not (
+                    a[1] == "IndexError" and const)):
+                fails.append("%s raises %s on valid integer-valued data"
+                             % (k, a[1]))
             continue
         if k == "stats":
             va, vb = a[1][1], b[1][1]
@@ -2256,6 +2393,26 @@ def enc_floats(arr):
 # correspondence: get_kde_contour with the stand-in estimator (linear scale,
 # explicit accuracies chosen so that the grid nodes are dyadic)
 # --------------------------------------------------------------------------
+def patch_everywhere(real, fake):
+    """replace `real` by `fake` in every dclab module namespace that refers
+    to it (also after `from x import y`); returns the undo list"""
+    import sys
+    undo = []
+    for name, mod in list(sys.modules.items()):
+        if not name.startswith("dclab") or mod is None:
+            continue
+        for attr, val in list(vars(mod).items()):
+            if val is real:
+                setattr(mod, attr, fake)
+                undo.append((mod, attr))
+    return undo
+
+
+def unpatch(undo, real):
+    for mod, attr in undo:
+        setattr(mod, attr, real)
+
+
 def gen_cfake_case(rng):
     n = rng.choice([2, 3, 5, 9, 20])
     kx, ky = rng.choice([2, 3, 4, 6]), rng.choice([2, 3, 5])
@@ -2289,7 +2446,20 @@ def gen_cfake_case(rng):
     modes = [rng.choice(["k", "k", "none", "zero"]) for _ in range(2)]
     case = dict(kind="cfake", n=n, xs=xs, ys=ys, mask=mask, kx=kx, ky=ky,
                 span=[bx - ax, by - ay], enable=(kind != "disabled"),
-                none=rng.random() < .15, modes=modes, kd=0)
+                none=rng.random() < .15, modes=modes, kd=0, sx=0, sy=0)
+    # a log axis: positive end points, 2 nodes (exact in the encoding)
+    if rng.random() < .4:
+        for ax_i, (lo, hi, arr, key) in enumerate(
+                ((ax, bx, xs, "kx"), (ay, by, ys, "ky"))):
+            if lo > 0 and rng.random() < .7:
+                case["sx" if ax_i == 0 else "sy"] = 1
+                case[key] = 2
+                case["modes"][ax_i] = "k"
+                # selected values inside the range may also be non-positive
+                # (log -> nan / -inf: purged), never beyond the end points
+                for i in range(2, n):
+                    if arr[i][0] == 0 and mask[i] and rng.random() < .2:
+                        arr[i] = [0, rng.choice([0, -8, -lo])]
     if modes != ["k", "k"]:
         kd = rng.choice([2, 3, 4])
         ok = all(m == "k" or (sp % (kd - 1) == 0)
@@ -2310,13 +2480,19 @@ def cfake_impl(case):
     ds.filter.manual[:] = np.array(case["mask"], dtype=bool)
     ds.config["filtering"]["enable filters"] = bool(case["enable"])
     ds.apply_filter()
+    lsx, lsy = case.get("sx", 0), case.get("sy", 0)
     kw = dict(xax="area_um", yax="deform", kde_type="veriffake",
-              kde_kwargs=dict(unlog=(0, 0)))
+              xscale=SCALES[lsx], yscale=SCALES[lsy],
+              kde_kwargs=dict(unlog=(lsx, lsy)))
     modes = case.get("modes", ["k", "k"])
-    for name, mode, sp, k in (("xacc", modes[0], case["span"][0], case["kx"]),
-                              ("yacc", modes[1], case["span"][1],
-                               case["ky"])):
-        if mode == "k":
+    xsv, ysv = dec(case["xs"]), dec(case["ys"])
+    for name, mode, sp, k, lg, vals in (
+            ("xacc", modes[0], case["span"][0], case["kx"], lsx, xsv[:2]),
+            ("yacc", modes[1], case["span"][1], case["ky"], lsy, ysv[:2])):
+        if mode == "k" and lg:
+            # scaled units: the range of the logarithms
+            kw[name] = float(np.log(vals[1]) - np.log(vals[0])) / (k - .5)
+        elif mode == "k":
             kw[name] = sp / 8 / (k - .5)
         elif mode == "zero":
             kw[name] = 0
@@ -2332,14 +2508,18 @@ def cfake_impl(case):
         a = np.asarray(a, dtype=np.float64)
         a = a[np.isfinite(a)]
         return 5 * (a.max() - a.min()) / (kd - .5)
-    if kd:
-        kde_methods.bin_width_doane = fake_doane
+    undo = patch_everywhere(real, fake_doane) if kd else []
     try:
         X, Y, Z = ds.get_kde_contour(**kw)
     except Exception:
         return [1]
     finally:
-        kde_methods.bin_width_doane = real
+        unpatch(undo, real)
+    # nodes of a log axis come back as exp(log(k/8))
+    X = np.round(X * 8) / 8 if lsx and np.allclose(
+        X * 8, np.round(X * 8), rtol=1e-12, atol=0) else X
+    Y = np.round(Y * 8) / 8 if lsy and np.allclose(
+        Y * 8, np.round(Y * 8), rtol=1e-12, atol=0) else Y
     return [0, int(np.size(X))] + enc_floats(X) + enc_floats(Y) + \
         enc_floats(Z)
 
@@ -2350,8 +2530,9 @@ def cfake_render(case):
     def opt(mode, k):
         return {"k": "(Some %d)" % k, "zero": "(Some 0)",
                 "none": "None"}[mode]
-    return "(%s, %s, %s, %s, %s, %s, %d, %s)" % (
+    return "(%s, %s, %d, %d, %s, %s, %s, %s, %d, %s)" % (
         common.blit(case["enable"]), common.blist(case["mask"]),
+        case.get("sx", 0), case.get("sy", 0),
         fvl(case["xs"]), fvl(case["ys"]), opt(modes[0], case["kx"]),
         opt(modes[1], case["ky"]), case.get("kd", 0) or 2,
         common.blit(case.get("none", False)))
@@ -2361,6 +2542,9 @@ def cfake_render(case):
 # correspondence: get_downsampled_scatter(ret_mask=True) with a stand-in for
 # downsample_grid
 # --------------------------------------------------------------------------
+DFAKE_UNLOG = [0, 0]     # scales of the current dfake call
+
+
 def fake_downsample_grid(a, b, samples, remove_invalid=False, ret_idx=False):
     """mirrors Model/C12.v:dsgrid_fake"""
     import numpy as np
@@ -2369,8 +2553,11 @@ def fake_downsample_grid(a, b, samples, remove_invalid=False, ret_idx=False):
     fin = np.isfinite(a) & np.isfinite(b)
     idx = np.zeros(a.size, dtype=bool)
     with np.errstate(all="ignore"):
-        k = np.round(np.where(fin, a, 0) * 8) + np.round(
-            np.where(fin, b, 0) * 8) + int(samples)
+        ka = np.where(fin, a, 0)
+        kb = np.where(fin, b, 0)
+        ka = np.exp(ka) if DFAKE_UNLOG[0] else ka
+        kb = np.exp(kb) if DFAKE_UNLOG[1] else kb
+        k = np.round(ka * 8) + np.round(kb * 8) + int(samples)
     idx[fin] = (k[fin] % 2 == 0)
     idx[~fin] = not remove_invalid
     if ret_idx:
@@ -2392,6 +2579,7 @@ def gen_dfake_case(rng):
                     arr[i] = rng.choice([[1, 0], [2, 0], [3, 0], [0, HUGE],
                                          [0, -HUGE]])
     return dict(kind="dfake", n=n, xs=xs, ys=ys, mask=mask,
+                sx=rng.choice([0, 0, 1]), sy=rng.choice([0, 0, 1]),
                 enable=(kind != "disabled"),
                 samples=rng.choice([0, 1, 2, 3, max(0, sum(mask) - 1),
                                     sum(mask), sum(mask) + 4, n + 7]),
@@ -2408,22 +2596,26 @@ def dfake_impl(case):
     ds.config["filtering"]["enable filters"] = bool(case["enable"])
     ds.apply_filter()
     real = core.downsampling.downsample_grid
-    core.downsampling.downsample_grid = fake_downsample_grid
+    DFAKE_UNLOG[:] = [case.get("sx", 0), case.get("sy", 0)]
+    undo = patch_everywhere(real, fake_downsample_grid)
     try:
         x, y, m = ds.get_downsampled_scatter(
             xax="area_um", yax="deform", downsample=case["samples"],
+            xscale=SCALES[case.get("sx", 0)],
+            yscale=SCALES[case.get("sy", 0)],
             remove_invalid=case["rm"], ret_mask=True)
     except Exception as e:
         return ["exc", type(e).__name__]
     finally:
-        core.downsampling.downsample_grid = real
+        unpatch(undo, real)
     return [int(len(x))] + enc_floats(x) + enc_floats(y) + \
         [int(v) for v in m]
 
 
 def dfake_render(case):
-    return "(%s, %s, %s, %s, %d, %s)" % (
+    return "(%s, %s, %d, %d, %s, %s, %d, %s)" % (
         common.blit(case["enable"]), common.blist(case["mask"]),
+        case.get("sx", 0), case.get("sy", 0),
         fvl(case["xs"]), fvl(case["ys"]), case["samples"],
         common.blit(case["rm"]))
 
@@ -2689,8 +2881,9 @@ def run(run):
         hist_cases.append(gen_history_case(run.rng))
     meta_cases = [c for c in corpus if c.get("kind") == "meta"]
     while len(meta_cases) < n_meta:
-        meta_cases.append(gen_meta_case(run.rng,
-                                        150 if run.thorough else 90))
+        meta_cases.append(gen_meta_case(
+            run.rng, 150 if run.thorough else 90,
+            FILTER_KINDS[len(meta_cases) % len(FILTER_KINDS)]))
 
     # the slow oracle pass runs in worker processes (started before dclab is
     # imported here) while the correspondence passes are evaluated
